@@ -133,6 +133,30 @@ EXTRA4 = {
 for _k, _v in EXTRA4.items():
     EXTRA[_k] = EXTRA.get(_k, "") + _v
 
+EXTRA5 = {
+ "C01": " Also: a member's stored URL is never edited in place.",
+ "C02": " Also: lookup and append are one critical section; the error handler is defaulted after the options ran; no URL object is edited in place.",
+ "C03": " Also: the bucket is refilled before its level is read; a tracked source is updated from its own request's rates on every hit.",
+ "C04": " Also: the wrapped handler runs only after a successful acquire.",
+ "C05": " Also: the wrapped handler is reached only through the admission routine; the fallback duration is stored as configured.",
+ "C06": " Also: the replayed body is the multibuf buffer itself (no wrapper).",
+ "C07": " Also: a retry the expression asks for is made (only a failed rewind / buffer allocation exits); bodiless statuses are exactly 1xx, 204, 304.",
+ "C08": " Also: each forwarder gets a freshly allocated header rewriter.",
+ "C09": " Also: memmetrics never hands out an object it keeps updating; counts are given back by defer; pool URL objects are not handed downstream.",
+ "C10": " Also: rebalancer lookups use the pool's identity function; critical sections running user code unlock by defer.",
+ "C11": " Also: the issued cookie's Path is never empty; the encrypted codec stamps the expiry in seconds; the forwarder keeps the chosen Scheme/Host.",
+ "C12": " Also: the recovery duration is stored as configured; the recording writer keeps the last status.",
+ "C13": " Also: every bucket of the set is consulted on every request.",
+ "C14": " Also: a source's buckets follow the rates of its own request on every hit.",
+ "C15": " Also: nothing returns between buffering the request body and registering its release; the error handler is defaulted after the options ran.",
+ "C16": " Also: ProxyWriter.Header returns the live header map on every path; Hijack/Flush/CloseNotify only delegate; the standard error handler has no unsynchronised state; the deferred 'disconnected' URL is evaluated at registration.",
+ "C17": " Also: the clean-up that precedes a bucket access is the clean-up of the same counter; the rebalancer feeds its meters under its mutex; get-or-create of status counters is re-checked.",
+ "C18": " Also: the check period is stored as configured; the metrics' locks are taken in one order.",
+ "C20": " Also: every middleware's error handler is defaulted after the options ran; counts are given back under the key they were taken with; trip side effects do not run under the lock.",
+}
+for _k, _v in EXTRA5.items():
+    EXTRA[_k] = EXTRA.get(_k, "") + _v
+
 NA = {}
 
 def main():
